@@ -205,8 +205,8 @@ func positions(tier string) []position {
 		ps = append(ps,
 			position{"slice-of-maps", func(s *ref.Schema) *ref.Schema { return ref.Array(ref.Map(s)) }, func(t reflect.Type) reflect.Type { return reflect.SliceOf(reflect.MapOf(str, t)) }},
 			position{"nullable-pointer", func(s *ref.Schema) *ref.Schema {
-				if s.Type == "union" {
-					return s
+				if s.Type == "union" || s.Type == "null" {
+					return s // [null,null] is not a schema
 				}
 				return ref.Union(ref.Prim("null"), s)
 			}, reflect.PointerTo},
